@@ -67,7 +67,8 @@ def main():
         assert rc == 0, "existing suite fails with the change:\n" + out[-1500:]
         for d in demos:
             shutil.copy(d, os.path.join(wt, demodir))
-        run = "go test -vet=off -count=1 -run 'Test%s|TestDemo|Demo' ./%s/" % (prop, demodir)
+        race = "CGO_ENABLED=1 go test -race" if prop == "C16" else "go test"     # a pure data race needs the detector to show
+        run = "%s -vet=off -count=1 -run 'Test%s|TestDemo|Demo' ./%s/" % (race, prop, demodir)
         rc1, out1 = sh(run, cwd=wt)
         meta["ran"].append({"cmd": run + " (with the change)", "rc": rc1, "tail": out1[-600:]})
         sh(["git", "apply", "-R", patch], cwd=wt)
